@@ -77,17 +77,16 @@ Section FLc.
       cfind_def cp (new_id (fdname d)) =
         Some (mkcd (new_id (fdname d))
                    (compile_ctx (fdctx d) ++ [mkcb (new_id a) CCns (compile_ty (fdret d))]) body) /\
-      frag p (fdbody d) = true /\ ws (compile_ctx (fdctx d)) (fdbody d) = true /\ nocap (fdbody d) = true /\
+      frag p (fdbody d) = true /\ ws (compile_ctx (fdctx d)) (fdbody d) = true /\
       kd p (fdbody d) = true /\ tkind p (fdbody d) = f_is_codata p (fdret d).
 
   (* compile_with_cont: the continuation has the kind of the term *)
   Definition flw (N : nat) (t : fterm) : Prop :=
     forall n, (n <= N)%nat -> forall G cur cont st s st' e ce k,
       wc (codata_of p) cur false t cont st = Ok (s, st') ->
-      frag p t = true -> kd p t = true -> ws G t = true -> nocap t = true ->
+      frag p t = true -> kd p t = true -> ws G t = true ->
       lifted_ok st' -> Gused G st -> incl (bnd t) (st_used_vars st) ->
       names_in (cnames (fvt cont)) st ->
-      (forall x, In x (bnd t) -> ~ In (new_id x) (cnames (fvt cont))) ->
       cont_shape cp (tkind p t) cont ->
       erel p cp n G (Sof (fvs s)) e ce ->
       CK p cp n (tkind p t) k cont ce (Sof (fvs s)) ->
@@ -98,7 +97,7 @@ Section FLc.
   Definition flc (N : nat) (t : fterm) : Prop :=
     forall n, (n <= N)%nat -> forall G cur ty st c st' e ce k m,
       cmp (codata_of p) cur false t ty st = Ok (c, st') ->
-      frag p t = true -> kd p t = true -> tkind p t = false -> ws G t = true -> nocap t = true ->
+      frag p t = true -> kd p t = true -> tkind p t = false -> ws G t = true ->
       lifted_ok st' -> Gused G st -> incl (bnd t) (st_used_vars st) ->
       is_codata cp ty = false ->
       erel p cp n G (Sof (fvt c)) e ce ->
@@ -110,7 +109,7 @@ Section FLc.
   Definition flt (N : nat) (t : fterm) : Prop :=
     forall n, (n <= N)%nat -> forall G cur ty st c st' e ce,
       cmp (codata_of p) cur false t ty st = Ok (c, st') ->
-      frag p t = true -> kd p t = true -> tkind p t = true -> ws G t = true -> nocap t = true ->
+      frag p t = true -> kd p t = true -> tkind p t = true -> ws G t = true ->
       lifted_ok st' -> Gused G st -> incl (bnd t) (st_used_vars st) ->
       is_codata cp ty = true ->
       erel p cp n G (Sof (fvt c)) e ce ->
@@ -139,13 +138,13 @@ Section FLc.
     flw N t ->
     forall n, (n <= N)%nat -> forall G cur ty st a sta s st' e ce k kv,
     fresh_covar st = Ok (a, sta) -> W cur (CXVar CCns (new_id a) ty) sta = Ok (s, st') ->
-    frag p t = true -> kd p t = true -> ws G t = true -> nocap t = true ->
+    frag p t = true -> kd p t = true -> ws G t = true ->
     lifted_ok st' -> Gused G st -> incl (bnd t) (st_used_vars st) ->
     erel p cp n G (Sof (fvt (CMu CPrd (new_id a) s ty))) e ce ->
     Kk p cp n (tkind p t) k kv ->
     sim p cp n (FEval t e k) (SNext (Run s ((new_id a, BK kv) :: ce))).
   Proof.
-    intros N t W HW H n Hn G cur ty st a sta s st' e ce k kv Ha Hs Hf Hkd Hw Hnc Hl HG Hb He HK.
+    intros N t W HW H n Hn G cur ty st a sta s st' e ce k kv Ha Hs Hf Hkd Hw Hl HG Hb He HK.
     destruct (fresh_in_vars_inv _ _ _ _ Ha) as [Hfresh [Hused _]].
     assert (Hgr : grows st sta) by (eapply mgrows_fresh_covar; exact Ha).
     apply (H n Hn G cur (CXVar CCns (new_id a) ty) sta s st' e _ k).
@@ -153,13 +152,11 @@ Section FLc.
     - exact Hf.
     - exact Hkd.
     - exact Hw.
-    - exact Hnc.
     - exact Hl.
     - eapply Gused_grows; eauto.
     - eapply incl_grows; eauto.
     - intros x Hx. simpl in Hx. destruct Hx as [Hx|[]]. subst x.
       exists a. split; [reflexivity|]. rewrite Hused. left. reflexivity.
-    - intros x Hx Hin. simpl in Hin. destruct Hin as [Hin|[]]. apply new_id_inj in Hin. subst x. apply Hfresh. apply Hb. exact Hx.
     - exact I.
     - eapply erel_gen; [exact He | |].
       + intros bb Hbb E. destruct (HG bb Hbb) as [x [Ex Hx]]. rewrite Ex in E. apply new_id_inj in E. subst x. exact (Hfresh Hx).
@@ -172,7 +169,7 @@ Section FLc.
     (forall cur ty, cmp (codata_of p) cur false t ty = default_compile (W cur) ty) ->
     flw N t -> flc N t.
   Proof.
-    intros N t W HW HC H n Hn G cur ty st c st' e ce k m Hc Hf Hkd Hk0 Hw Hnc Hl HG Hb Hty He HK.
+    intros N t W HW HC H n Hn G cur ty st c st' e ce k m Hc Hf Hkd Hk0 Hw Hl HG Hb Hty He HK.
     rewrite HC in Hc. apply default_compile_inv in Hc. destruct Hc as [a [sta [s [Ha [Hs Ec]]]]]. subst c.
     apply sim_cstep. simpl. rewrite Hty.
     eapply (default_body N t W HW H n Hn G cur ty st a sta s st' e ce k (KRet m)); eauto.
@@ -186,7 +183,7 @@ Section FLc.
     (forall y ty0 chi, t <> FVar y ty0 chi) ->
     flw N t -> flt N t.
   Proof.
-    intros N t W HW HC Hnv H n Hn G cur ty st c st' e ce Hc Hf Hkd Hk1 Hw Hnc Hl HG Hb Hty He.
+    intros N t W HW HC Hnv H n Hn G cur ty st c st' e ce Hc Hf Hkd Hk1 Hw Hl HG Hb Hty He.
     rewrite HC in Hc. apply default_compile_inv in Hc. destruct Hc as [a [sta [s [Ha [Hs Ec]]]]]. subst c.
     exists (PThunk (new_id a) s ce). split; [|split; [|split; [|split]]].
     - intros m. simpl. rewrite Hty. reflexivity.
@@ -231,7 +228,7 @@ Section FLc.
     subst_with (fun y => cmp (codata_of p) cur false y) args st = Ok (l, st') ->
     forallb (arg_ok p) args = true -> forallb (arg_kd p) args = true ->
     (po = true -> forallb (fun y => negb (is_cns_var y) && negb (tkind p y)) args = true) ->
-    forallb (ws_arg G) args = true -> forallb nocap args = true ->
+    forallb (ws_arg G) args = true ->
     lifted_ok st' -> Gused G st -> incl (flat_map bnd args) (st_used_vars st) ->
     erel p cp n G (Sof (fva l)) e ce ->
     (forall j, (j <= n)%nat -> forall new new', Forall2 (brel p cp j) new new' ->
@@ -240,12 +237,12 @@ Section FLc.
     sim p cp n (FArgs done args e f k) (cargs_res cp done' (l ++ tail) ce fin).
   Proof.
     intros N args HA HT. revert HT. induction HA as [|y r Hy Hr IH]; intros HT;
-      intros n Hn po G cur st l st' e ce tail f fin k done done' Hs Hf Hkd Hpo Hw Hnc Hl HG Hb He Hfin.
+      intros n Hn po G cur st l st' e ce tail f fin k done done' Hs Hf Hkd Hpo Hw Hl HG Hb He Hfin.
     - simpl in Hs. apply mret_inv in Hs. destruct Hs; subst. simpl. apply (Hfin n (Nat.le_refl n) [] []); constructor.
     - inversion HT as [|? ? Hty Htr]; subst.
       apply subst_with_cons_inv in Hs. destruct Hs as [a [st1 [rest [Ha [Hrest El]]]]]. subst l.
-      simpl in Hf, Hkd, Hw, Hnc. apply andb_prop in Hf. destruct Hf as [Hf1 Hf2]. apply andb_prop in Hw. destruct Hw as [Hw1 Hw2].
-      apply andb_prop in Hnc. destruct Hnc as [Hnc1 Hnc2]. apply andb_prop in Hkd. destruct Hkd as [Hkd1 Hkd2].
+      simpl in Hf, Hkd, Hw. apply andb_prop in Hf. destruct Hf as [Hf1 Hf2]. apply andb_prop in Hw. destruct Hw as [Hw1 Hw2].
+      apply andb_prop in Hkd. destruct Hkd as [Hkd1 Hkd2].
       assert (Hg1 : grows st st1).
       { unfold compile_arg in Ha. revert Ha. apply mgrows_compile_arg. intros ty.
         apply (proj2 (wc_cmp_grows (codata_of p) cur false y)). }
@@ -304,7 +301,7 @@ Section FLc.
           { destruct po; [|reflexivity]. specialize (Hpo eq_refl). simpl in Hpo. rewrite Hk1 in Hpo.
             rewrite andb_false_r in Hpo. discriminate. }
           destruct n as [|n1]; [apply sim_zero|].
-          destruct (Hty (S n1) Hn G cur (compile_ty ty0) st c st1 e ce Ec Hf1 Hkdy Hk1 Hw1 Hnc1) as [pv [Harg [_ [_ [HCo Hvar]]]]].
+          destruct (Hty (S n1) Hn G cur (compile_ty ty0) st c st1 e ce Ec Hf1 Hkdy Hk1 Hw1) as [pv [Harg [_ [_ [HCo Hvar]]]]].
           { eapply lifted_ok_grows; eauto. }
           { exact HG. }
           { exact Hb1. }
@@ -325,7 +322,7 @@ Section FLc.
         * (* data: evaluated *)
           destruct n as [|n1]; [apply sim_zero|].
           eapply sim_fstep; [apply fstep_args_eval; assumption|].
-          apply (Hy n1 (Nat.lt_le_incl _ _ Hn) G cur (compile_ty ty0) st c st1 e ce _ _ Ec Hf1 Hkdy Hk1 Hw1 Hnc1).
+          apply (Hy n1 (Nat.lt_le_incl _ _ Hn) G cur (compile_ty ty0) st c st1 e ce _ _ Ec Hf1 Hkdy Hk1 Hw1).
           -- eapply lifted_ok_grows; eauto.
           -- exact HG.
           -- exact Hb1.
